@@ -1093,7 +1093,7 @@ class CliCommands(Family):
             try:
                 import structlog
 
-                structlog.configure(wrapper_class=structlog.make_filtering_bound_logger(50))
+                __import__('harness.core', fromlist=['core']).configure_harness_logging()      # put the harness logging configuration back
             except Exception:  # noqa: BLE001
                 pass
 
